@@ -38,7 +38,8 @@ def bmp(w: int, h: int, seed: int = 0) -> bytes:
         pix += r
     off = 14 + 40
     return (b"BM" + struct.pack("<IHHI", off + len(pix), 0, 0, off)
-            + struct.pack("<IiiHHIIiiII", 40, w, h, 1, 24, 0, len(pix), 2835, 2835, 0, 0) + bytes(pix))
+            + struct.pack("<IiiHHIIiiII", 40, w, -h if seed % 3 == 0 else h, 1, 24, 0, len(pix), 2835, 2835, 0, 0) + bytes(pix))
+    # (every third bitmap is stored top-down: a negative biHeight, the picture is |biHeight| rows high)
 
 
 def jpeg(w: int, h: int, seed: int = 0) -> bytes:
